@@ -286,6 +286,7 @@ func (t *Target) createProxyHandler() http.Handler {
 		Transport: &http.Transport{
 			MaxIdleConnsPerHost:   MaxIdleConnsPerHost,
 			ResponseHeaderTimeout: t.options.ResponseTimeout,
+			DisableCompression:    true,
 		},
 	}
 }
